@@ -210,6 +210,7 @@ def job_operators(E, rep, tier):
             cx = Ctx(E, [])
             f = jets.DynJetFunction('F', d, (d,))
             g = jets.DynJetFunction('G', d, (d,) if noise == 'diagonal' else (d, m), elementwise=(noise == 'diagonal'), ydep=(noise != 'additive'))
+            g.per_row = True
             user = H.make_user_sde(noise, 'ito', {'f': f, 'g': g})
             t = Poly.var('t')
             y = X.symt('y', (B, d))
